@@ -120,6 +120,31 @@ CHECK_DEADLOCK FALSE
 '''
 
 
+def tla_str(s):
+    return '"' + s.replace('\\', '\\\\').replace('"', '\\"') + '"'
+
+
+def tla_seq(xs):
+    return '<<' + ', '.join(str(x) for x in xs) + '>>'
+
+
+def tables_module(doc):
+    """TraceTables.tla: the realisation tables as literal TLA+ constants."""
+    names = doc['names']
+    lines = ['---- MODULE TraceTables ----', 'EXTENDS Naturals, Sequences']
+    lines.append('TabNames == {' + ', '.join(tla_str(n['id']) for n in names) + '}')
+    lines.append('TabBlobs == {' + ', '.join(tla_str(b['id']) for b in doc['blobs']) + '}')
+    lines.append('TabTargets == {' + ', '.join(tla_str(t) for t in doc['targets']) + '}')
+    cases = ' [] '.join('n = %s -> [iso |-> %s, rr |-> %s, jol |-> %s, udf |-> %s]' % (
+        tla_str(n['id']), tla_seq(n['iso']), tla_seq(n['rr']), tla_seq(n['jol']), tla_seq(n['udf']))
+        for n in names)
+    lines.append('TabCode == [n \\in TabNames |-> CASE ' + cases + ']')
+    bcases = ' [] '.join('b = %s -> %d' % (tla_str(b['id']), b['len']) for b in doc['blobs'])
+    lines.append('TabBlobLen == [b \\in TabBlobs |-> CASE ' + bcases + ']')
+    lines.append('====')
+    return '\n'.join(lines) + '\n'
+
+
 def validate(doc, workers=8, timeout=3600):
     """run Trace_Model on the document; returns dict with diags, overs, skips, ended ids, stats."""
     fd, path = tempfile.mkstemp(prefix='verif-trace-', suffix='.json')
@@ -127,7 +152,8 @@ def validate(doc, workers=8, timeout=3600):
         with os.fdopen(fd, 'w') as f:
             json.dump(doc, f)
         out, stats = tlc.run_tlc('Trace_Model', TRACE_CFG, workers=workers,
-                                 env={'TRACE_FILE': path}, timeout=timeout)
+                                 env={'TRACE_FILE': path}, timeout=timeout, heap='3g',
+                                 aux_modules={'TraceTables': tables_module(doc)})
     finally:
         os.unlink(path)
     res = {'diag': [], 'over': [], 'skip': [], 'end': [], 'stats': stats}
